@@ -98,6 +98,7 @@ func newC05Sys(c *vCtx, cfg vC05Cfg, maxN int) *vC05Sys {
 }
 
 func (s *vC05Sys) Reset() {
+	vResetGlobals()
 	var vi VectorIndex
 	var ti TextIndex
 	var mi MetadataIndex
